@@ -3,7 +3,16 @@
 From Fiddle Require Import PyBase PySlice Sig ArgStore PyCall Heap Traverse Build Build_proofs.
 
 Record case := mkcase { c_env : sigenv; c_heap : heap; c_root : ref; c_target : nat;
-                        c_log_before : list nat }.
+                        c_log_before : list nat;
+                        c_path : path (* the path named by the escaping exception *) }.
+
+(* The path named in the message is state.current_path of the memoized traversal when the callable is
+   invoked: the first path, in traversal order, that reaches the Buildable. *)
+Definition failing_path (e : sigenv) (h : heap) (r : ref) (k : nat) : path :=
+  match paths_to e h (S (length h)) r k with
+  | p :: _ => p
+  | [] => []
+  end.
 
 Definition fail_at (k : nat) (i : nat) : option N := if Nat.eqb i k then Some 1%N else None.
 
@@ -16,9 +25,10 @@ Definition check_case (c : case) : bool :=
       Nat.eqb k (c_target c)
       && (if list_eq_dec Nat.eq_dec (call_log (c_heap c) s) (c_log_before c) then true else false)
       && (if heap_eq_dec (firstn (length (c_heap c)) (out s)) (c_heap c) then true else false)
+      && (if path_eq_dec (failing_path (c_env c) (c_heap c) (c_root c) k) (c_path c) then true else false)
   | _ => false
   end.
 
 Definition explain_case (c : case) :=
   let '(flag, (s, res)) := build (c_env c) (fail_at (c_target c)) false (c_heap c) (c_root c) in
-  (flag, res, call_log (c_heap c) s).
+  (flag, res, call_log (c_heap c) s, failing_path (c_env c) (c_heap c) (c_root c) (c_target c)).
